@@ -91,8 +91,37 @@ KNOWN_CORPUS = [
 ]
 
 
+TRICKLE_WHY = ("trickle ICE: both agents are READY on selected pairs that are not mirror images, and the check list of the agent holding the lower-priority "
+               "pair does not contain the pair its peer selected (pruned by its early READY decision / never formed for a candidate trickled later)")
+
+
 def oracle(line, evs, meta):
-    return sc.oracle_convergence(evs, meta.get("ncomp", 1), nat=meta.get("nat")) or sc.oracle_states(evs, None) or sc.oracle_checklist_sorted(evs) or sc.oracle_data(evs)
+    r = sc.oracle_convergence(evs, meta.get("ncomp", 1), nat=meta.get("nat"))
+    if r and r.startswith("selected pairs are not mirror images") and trickle_signature(line, evs):
+        return TRICKLE_WHY
+    return r or sc.oracle_states(evs, None) or sc.oracle_checklist_sorted(evs) or sc.oracle_data(evs)
+
+
+def trickle_signature(line, evs):
+    """the known finding's situation, recognised on the implementation's own trace: a trickle agent, no NAT, and in the final check-list dumps one agent
+    lacks the mirror image of the pair the other one has selected"""
+    import re
+    ags = [w.split(",") for w in line.split() if w.startswith("agent,")]
+    if not any(int(a[4]) & sc.OPT_TRICKLE for a in ags) or any(w.startswith("nat,") for w in line.split()):
+        return False
+    digs = {}
+    for e in evs:
+        if e.kind == "dig":
+            digs[e.f[0]] = " ".join(e.f)
+    if len(digs) < 2:
+        return False
+    for x, y in (("0", "1"), ("1", "0")):
+        for m in re.finditer(r"c(\d+)=READY\(([^>]+)>([^)]+)\)", digs[x]):
+            comp, l, rem = m.group(1), m.group(2), m.group(3)
+            # does y hold the mirrored pair rem>l for that component in its check list?
+            if not re.search(r"\b%s:%s>%s:" % (comp, re.escape(rem), re.escape(l)), digs[y]):
+                return True
+    return False
 
 
 def pregen():
@@ -108,7 +137,8 @@ def run(chk):
     import c01_checklist
     c01_checklist.checklist_tie(chk)
     n = 1200 if chk.tier == "quick" else 60000
-    cases = KNOWN_CORPUS + [sc.gen_convergence(chk.rng, i) for i in range(n)]
+    rng = chk.sub_rng("convergence")      # own stream: the ties above must not shift these scenarios
+    cases = KNOWN_CORPUS + [sc.gen_convergence(rng, i) for i in range(n)]
     sc.run_sim(chk, cases, oracle, "sim-C01")
     return chk.finish(**FINISH)
 
